@@ -110,10 +110,7 @@ theorem pubE_good (tbl : Table) (ht : TableOk tbl) :
     rw [siteLens] at hl ⊢
     have ga := pubE_good tbl ht a sa hl.right.left h1
     have gb := pubE_good tbl ht b sb hl.right.right h2
-    refine Good.append hl (pubE_good tbl ht c sc hl.left hc) ?_
-    split
-    · exact gb.right _
-    · exact ga.left _
+    exact Good.append hl (pubE_good tbl ht c sc hl.left hc) (Good.append hl.right ga gb)
   | .tup es, seg, hl, h => by
     rw [pubE] at h; rw [siteLens] at hl ⊢
     exact pubL_good tbl ht es seg hl h
